@@ -17,6 +17,7 @@ ToRequest == "ContactStateToRequest"
 MReset == Consume("reset")
 MPend == /\ Consume("pend")
          /\ Ev.handshake /\ Ev.victim_before = ToRequest      \* set-up sanity (an honest handshake as E must succeed)
+         /\ (("hung" \in DOMAIN Ev) => ~Ev.hung)              \* the handler answers once the peer has sent everything, however it was chunked
          /\ Ev.victim_after = ToRequest
          /\ IF Ev.announce = "victim"
               THEN Ev.err /\ Ev.grew = 0
